@@ -18,6 +18,8 @@
 (*   CmpAM CmpAN CmpDM CmpDN  N x N tuples over {-1,0,1}: asc/desc x       *)
 (*                          nullsMax/nullsMin                              *)
 (*   FnM FnN                compare(a,b,true) / compare(a,b,false)         *)
+(*   LakeA LakeD            zbuf.NewComparatorNullsMax(key asc / desc) on  *)
+(*                          records {k: value} (the lake's object order)   *)
 (*   IsNullV IsDeep IsFloatV IsIntK IsBig   per-value facts (see below)    *)
 (*   Samples                <<[cfg, cfg2, keys, keys2, out]>>: keys (keys2) *)
 (*                          = the token of sort key 1 (2) at each input    *)
@@ -57,6 +59,8 @@ CmpDM    == JsonDeserialize("od_dm.json")
 CmpDN    == JsonDeserialize("od_dn.json")
 FnM      == JsonDeserialize("od_fnm.json")
 FnN      == JsonDeserialize("od_fnn.json")
+LakeA    == JsonDeserialize("od_lakea.json")
+LakeD    == JsonDeserialize("od_laked.json")
 Samples  == JsonDeserialize("od_samples.json")
 
 \* Configurations whose triples are scanned.  Desc = reverse of asc is checked on
@@ -95,6 +99,12 @@ DescAt(cfg, a, b) == IsDesc(cfg) => Cmp(cfg)[a][b] = Cmp(AscOf(cfg))[b][a]
 \* (7) every consumer uses the same routine: compare() agrees with the comparator
 FnAt(cfg, a, b) == /\ cfg = "am" => FnM[a][b] = CmpAM[a][b]
                    /\ cfg = "an" => FnN[a][b] = CmpAN[a][b]
+\* (7b) the lake's comparators (zbuf.NewComparatorNullsMax over the pool key, asc
+\* and desc; they append the value's bytes as a last key to make the order total)
+\* agree with the sort comparator wherever that one decides
+LakeAt(cfg, a, b) == /\ cfg = "am" => (CmpAM[a][b] # 0 => LakeA[a][b] = CmpAM[a][b])
+                     /\ cfg = "dm" => (CmpDM[a][b] # 0 => LakeD[a][b] = CmpDM[a][b])
+                     /\ cfg \in {"am", "dm"} => (IF cfg = "am" THEN LakeA ELSE LakeD)[a][b] = -(IF cfg = "am" THEN LakeA ELSE LakeD)[b][a]
 \* (8) nullsMax only moves nulls: values that are not null and contain no null
 \* element compare the same under both settings (drift-level, not a property clause)
 IndepAt(cfg, a, b) ==
@@ -152,6 +162,7 @@ PairBad(k, x, y) ==
   \cup (IF ~NullsAt(k, x, y) THEN {<<"nulls", y, 0, "new">>} ELSE {})
   \cup (IF ~DescAt(k, x, y) THEN {<<"desc", y, 0, "new">>} ELSE {})
   \cup (IF ~FnAt(k, x, y) THEN {<<"fn", y, 0, "new">>} ELSE {})
+  \cup (IF ~LakeAt(k, x, y) THEN {<<"lake", y, 0, "new">>} ELSE {})
   \cup (IF ~IndepAt(k, x, y) THEN {<<"indep", y, 0, "drift">>} ELSE {})
 
 \* ... and at (x, y, c) for every c.  Both transitivity axioms have the
@@ -159,10 +170,9 @@ PairBad(k, x, y) ==
 TripleBad(k, x, y) ==
   LET R == Cmp(k)  Rx == R[x]  Ry == R[y]  rxy == Rx[y] IN
   IF rxy > 0 THEN {}
-  ELSE LET leq == {d \in U : Ry[d] <= 0 /\ Rx[d] > 0}                  \* ~TransLeqAt(R, x, y, d)
-           eq  == IF rxy = 0 THEN {d \in U : Ry[d] = 0 /\ Rx[d] # 0} ELSE {}   \* ~TransEqAt(R, x, y, d)
-       IN   {<<"transleq", y, c, Class(R, x, y, c)>> : c \in leq}
-       \cup {<<"transeq", y, c, Class(R, x, y, c)>> : c \in eq}
+  ELSE LET viol == {d \in U : Ry[d] <= 0 /\ (Rx[d] > 0                               \* ~TransLeqAt(R, x, y, d)
+                                          \/ (rxy = 0 /\ Ry[d] = 0 /\ Rx[d] < 0))}   \* ~TransEqAt only
+       IN  {<<IF Rx[c] > 0 THEN "transleq" ELSE "transeq", y, c, Class(R, x, y, c)>> : c \in viol}
 
 RowBad(k, x) == UNION {PairBad(k, x, y) \cup (IF k \in TripleCfgs THEN TripleBad(k, x, y) ELSE {}) : y \in U}
 
